@@ -350,8 +350,13 @@ func analysePost(in *bInput, sp *saml2.SAMLServiceProvider, body []byte, relay s
 
 // callerDocument turns a library-built document into one a caller might hand in: its own prolog,
 // comments outside the root element, default write settings and an attribute whose value needs care.
-func callerDocument(doc *etree.Document) {
+func callerDocument(doc *etree.Document, big bool) {
 	doc.WriteSettings = etree.WriteSettings{}
+	doc.Root().CreateAttr("Destination", "https://elsewhere.example/inbox?x=1&y=2")
+	if big {
+		doc.Root().CreateAttr("app:padding", strings.Repeat("0123456789abcdef", 300))
+		doc.AddChild(etree.NewComment(strings.Repeat(" lorem ipsum ", 400)))
+	}
 	doc.Root().CreateAttr("xmlns:app", "urn:example:app")
 	doc.Root().CreateAttr("app:note", "tab\there cr\rlf\nend")
 	doc.InsertChildAt(0, etree.NewProcInst("xml", `version="1.0" encoding="UTF-8"`))
@@ -437,8 +442,8 @@ func bindingsOne(inp *bInput, relay string) (*bObs, map[string]any) {
 			return
 		}
 		var docBytes []byte
-		if doc != nil && in.Doc == "caller" {
-			callerDocument(doc)
+		if doc != nil && (in.Doc == "caller" || in.Doc == "callerBig") {
+			callerDocument(doc, in.Doc == "callerBig")
 		}
 		if doc != nil {
 			s, _ := doc.WriteToString()
